@@ -1,0 +1,6 @@
+//go:build !verif
+// +build !verif
+
+package destination
+
+func verifPoint(p string) {}
